@@ -44,7 +44,7 @@ Proof.
   assert (Hrun : run_op gshape gaxes o [mkT s (TSingle fl g)] = dispatch_single gshape (is_flow (TSingle fl g)) o [mkT s (TSingle fl g)]).
   { destruct o; try discriminate Hg; unfold run_op; destruct fl; reflexivity. }
   rewrite Hrun. unfold dispatch_single.
-  destruct o as [[|]| | | | | | | | | | | | | | | | | | | | | | | | | | | | | | | ]; try discriminate Hg;
+  destruct o as [[|]| | | | | | | | | | | | | | | | | | | | | | | | | | | | | | | | ]; try discriminate Hg;
     cbv [class_of is_split_class]; try exact I;
     cbn [map t_kind t_shape existsb is_batch first_grid flat_map app hd orb];
     match goal with |- context [data_sem ?oo ?l] => destruct (data_sem oo l) as [e|dd|ds] eqn:ED end; try exact I;
